@@ -216,6 +216,12 @@ def cmd_check(tier, prop):
     agg = evidence.Aggregate(prop)
     budget = prof["quick_budget"] if tier == "quick" else int(os.environ.get("VERIF_BUDGET", prof["thorough_budget"]))
     n_runs = prof["quick_runs"] if tier == "quick" else 10_000_000
+    if prop == "C18" and tier == "quick":
+        # the quick tier visits every cell of the fault grid once as the first call of a run: the grid is generated
+        # from the live ufunc / handler tables, so its size is read, not assumed
+        from unytsim import c18sim as _c18
+
+        n_runs = max(n_runs, len(_c18.grid()) + 64)
     fails = {}
     harness_errors = []
 
